@@ -37,8 +37,9 @@ var staleBundle = base64.StdEncoding.EncodeToString([]byte("-----BEGIN CERTIFICA
 
 // snap is an immutable copy of a store's contents.
 type snap struct {
-	objs map[simkube.ObjKey]*unstructured.Unstructured
-	keys []simkube.ObjKey
+	objs  map[simkube.ObjKey]*unstructured.Unstructured
+	keys  []simkube.ObjKey
+	canon *canon
 }
 
 func snapshot(s *simkube.Store) *snap {
@@ -178,6 +179,9 @@ type canon struct {
 }
 
 func (sn *snap) canonical() *canon {
+	if sn.canon != nil {
+		return sn.canon
+	}
 	tab := sn.symbols()
 	c := &canon{objs: map[string]map[string]any{}}
 	var b strings.Builder
@@ -201,6 +205,7 @@ func (sn *snap) canonical() *canon {
 		b.WriteString("\n")
 	}
 	c.text = b.String()
+	sn.canon = c
 	return c
 }
 
